@@ -1,5 +1,5 @@
 (* C04 — Every request's result channels terminate with the right outcome.
-   Only statements; proofs are in GS.ReqMgrProofs and GS.ReqMgrLive.  The model is the labelled
+   Only statements; proofs are in GS.ReqMgrProofs, GS.ReqMgrLive and GS.ReqMgrCC.  The model is the labelled
    transition system GS.ReqMgr.step of ONE request inside requestmanager.RequestManager: actor loop +
    mailbox, table entry, task queue, executor, traverser goroutine, reconciled loader (queue length,
    online flag), the three contexts, the internal channels, the two collector goroutines with their
@@ -18,7 +18,8 @@
                    cancelled and the channels are not both closed, some non-environment label is
                    enabled, and a nat-valued measure decreases on every non-environment step
                    (=> every weakly fair run in which the caller keeps reading closes both channels).
-   PROVED HERE: S1 in full (C04_no_delivery_after_close); the handler-level parts of S2 and S3
+   PROVED HERE: S1 in full (C04_no_delivery_after_close); the ClientCancelled half of S2 at history level
+   (C04_ctx_cancel_delivers_client_cancelled); the handler-level parts of S2 and S3
    (C04_cancel_sends_cancel, C04_failure_status_recorded, C04_terminal_error_sticky); the two repaired
    race windows as facts of the model (C04_cancelled_request_never_goes_online,
    C04_cancelled_request_not_parked); L for the collector half (C04_progress_collectors_partial: once
@@ -27,7 +28,7 @@
    the monitor on the implementation's traces): the history-level counting in S2/S3/S4 and L for the
    loop/executor half. *)
 From Coq Require Import List NArith Bool Arith.
-From GS Require Import Base ReqMgr ReqMgrProofs ReqMgrLive.
+From GS Require Import Base ReqMgr ReqMgrProofs ReqMgrLive ReqMgrCC.
 Import ListNotations.
 
 (* S1, full: for every plan and every label sequence the event history of the run contains no delivery
@@ -48,6 +49,17 @@ Theorem C04_cancel_sends_cancel : forall api s en,
              (api = true -> e_terr en = None -> exists e1, ent s1 = Some e1 /\ e_terr e1 = Some ErrCC).
 Proof. exact cancel_handled. Qed.
 Print Assumptions C04_cancel_sends_cancel.
+
+(* S2, history level, ClientCancelled half: from ANY state in which the error collector still listens to
+   the internal error channel (ec = ECRun true -- the case whenever the request is in the table), if the
+   caller cancels the context then, over every continuation (every interleaving), the returned error
+   channel is not closed before RequestClientCancelledErr has been delivered on it. *)
+Theorem C04_ctx_cancel_delivers_client_cancelled : forall s ls s' es,
+  ec s = ECRun true ->
+  run s (LEnvCtxCancel :: ls) = Some (s', es) ->
+  ec s' = ECExit -> In (EvDelivE ErrCC) es.
+Proof. exact c04_ctx_cancel_cc. Qed.
+Print Assumptions C04_ctx_cancel_delivers_client_cancelled.
 
 (* S3, handler level: a failure status n for a request in the table with no terminal error yet records
    exactly AsError(n), cancels the request locally and sends nothing. *)
